@@ -54,7 +54,7 @@ type params struct {
 func (*prop) Cases(seed int64, tier string) []core.Case {
 	nc, n := 16, 8
 	if tier == "thorough" {
-		nc, n = 64, 16
+		nc, n = 64, 64
 	}
 	var cs []core.Case
 	for i := 0; i < nc; i++ {
